@@ -835,6 +835,41 @@ func vfc04Run(r *vfkit.Run, c int, sc *vfc04Scenario, rng *rand.Rand) {
 	if hi > lo && !sc.fullRangeOnly {
 		a := lo + rng.Int63n(hi-lo+1)
 		b := a + rng.Int63n(hi-a+1)
+		if rng.Intn(2) == 0 {
+			// bounds exactly on chunk edges (scripted chunks: their MinTime/MaxTime; TSDB heads cut every 120 samples)
+			// or one millisecond off: the querier's mint and maxt are inclusive
+			var edges []int64
+			for _, st := range sc.stores {
+				for _, ss := range st.series {
+					for _, ch := range ss.chunks {
+						edges = append(edges, ch.MinTime, ch.MaxTime)
+					}
+				}
+			}
+			if len(sc.extraClients) > 0 {
+				for l := range sc.samples {
+					for _, pts := range sc.samples[l] {
+						for i := 119; i < len(pts); i += 120 {
+							edges = append(edges, pts[i].T)
+							if i+1 < len(pts) {
+								edges = append(edges, pts[i+1].T)
+							}
+						}
+						if len(pts) > 0 {
+							edges = append(edges, pts[rng.Intn(len(pts))].T)
+						}
+					}
+				}
+			}
+			if len(edges) > 0 {
+				a = vfkit.Pick(rng, edges) + int64(rng.Intn(3)) - 1
+				b = vfkit.Pick(rng, edges) + int64(rng.Intn(3)) - 1
+				if a > b {
+					a, b = b, a
+				}
+				r.Count("sub_ranges_with_bounds_on_chunk_edges", 1)
+			}
+		}
 		ranges = append(ranges, [2]int64{a, b})
 	}
 	sc.desc["query"] = map[string]any{"func": f, "algorithm": algo, "retrieval": string(strategy), "response_batch_size": batch}
